@@ -300,7 +300,10 @@ def _model(case, ctx):
     x = np.array([xb[0], tz_of(xb[0], xb[1])])
     want, err = exact_joint_cdf(ref, x[0], x[1])
     got = float(np.asarray(tm.cdf(x.reshape(1, 2)), float)[0])
-    ctx.check("c16.cdf", abs(got - want) <= 1e-5 + 10 * err, "TransformedModel.cdf is not the integral of its density (exact cdf by quadrature)", point=x.tolist(), got=got, want=want, **info)
+    # (TransformedModel.cdf is scipy's adaptive 2-D quadrature of the pdf with default tolerances; on the ridge-shaped
+    #  (hs, tz) densities it is good to a few 1e-5 - 3.2e-5 seen in 80 models - while the property only asks for
+    #  agreement within Monte-Carlo error: 2e-4 is allowed)
+    ctx.check("c16.cdf", abs(got - want) <= 2e-4 + 10 * err, "TransformedModel.cdf is not the integral of its density (exact cdf by quadrature)", point=x.tolist(), got=got, want=want, **info)
     n_emp = 200000
     big = np.asarray(tm.draw_sample(n_emp), float)
     emp = float(np.asarray(tm.empirical_cdf(x.reshape(1, 2), sample=big), float)[0])
@@ -387,9 +390,13 @@ def _conditional(case, ctx):
         xq = np.asarray(tm.conditional_icdf(pv, dim, given, random_state=seed + 1), float)
         Fx = np.asarray(exact(xq), float)
         e5 = stats.dkw_eps(100000)
-        ctx.check("c16.conditional-icdf", bool(np.all(np.abs(Fx - pv) <= e5 + 1e-6)), "conditional_icdf is outside the Monte-Carlo band around the exact conditional quantile", p=pv, exact_cdf_at_result=Fx, eps=e5, **info)
+        ok_i = bool(np.all(np.abs(Fx - pv) <= e5 + 1e-6))
+        # a smaller truncation than the 20000-point sample can show is visible in the 100000-point band: the same known
+        # finding, verified by agreement with the TRUNCATED law F / F(x_max) that the probe implies
+        ctx.check("c16.conditional-icdf", ok_i, "conditional_icdf is outside the Monte-Carlo band around the exact conditional quantile", None if ok_i else _truncated_law_mech(exact, Fx, pv, e5, smp), p=pv, exact_cdf_at_result=Fx, eps=e5, probe=_probe_summary(), **info)
         pc = np.asarray(tm.conditional_cdf(xq, dim, given, random_state=seed + 2), float)
-        ctx.check("c16.conditional-cdf", bool(np.all(np.abs(pc - Fx) <= e5 + 1e-6)), "conditional_cdf is outside the Monte-Carlo band around the exact conditional cdf", got=pc, exact=Fx, eps=e5, **info)
+        ok_c = bool(np.all(np.abs(pc - Fx) <= e5 + 1e-6))
+        ctx.check("c16.conditional-cdf", ok_c, "conditional_cdf is outside the Monte-Carlo band around the exact conditional cdf", None if ok_c else _truncated_law_mech(exact, Fx, pc, e5, smp), got=pc, exact=Fx, eps=e5, probe=_probe_summary(), **info)
     # batch calls: several conditioning values in ONE call, close to each other in absolute terms; every row has to
     # follow its own conditional law
     if D <= eps and dim == 1 and 0.04 <= q <= 0.96:
@@ -411,6 +418,26 @@ def _probe_summary():
         return None
     p = PROBES[-1]
     return {"x_max": float(p["x_max"]), "f_max": float(p["f_max"]), "x_min": float(p["x_min"])}
+
+
+def _truncated_law_mech(exact, F_exact, p_observed, eps, smp):
+    """The observed probabilities agree (within the band) with the exact law truncated at the probe's x_max, which cuts
+    more than 1e-3 of the mass, and the sample stays below x_max: the support search truncated the conditional law."""
+    pr = _probe_summary()
+    if pr is None:
+        return None
+    try:
+        mass_below = float(np.atleast_1d(exact(np.array([pr["x_max"]])))[0])
+    except Exception:  # noqa: BLE001
+        return None
+    if not (1e-3 < 1.0 - mass_below < 0.5):
+        return None
+    if smp is not None and float(np.max(smp)) > pr["x_max"] * (1 + 1e-12):
+        return None
+    trunc = np.minimum(np.asarray(F_exact, float) / mass_below, 1.0)
+    if bool(np.all(np.abs(trunc - np.asarray(p_observed, float)) <= eps + 1e-6)):
+        return "conditional-sample-support-search-truncates"
+    return None
 
 
 def _support_mech(ref, dim, g, smp, exact):
